@@ -2,18 +2,27 @@
 
 The oracle is the extracted Coq model (coq/model/Grouped.v); the theorems of coq/props/C13.v say that model is the stated
 composition for every table.  Here the six public functions are run side by side with it."""
-import itertools, math
+import itertools, math, os
 from fractions import Fraction
 import numpy as np
 import pandas as pd
 from core import call_impl, close
 
 COLS = ['g', 'h', 'f', 's', 't', 'u']            # g: string key, h: int key, f: float key (multiples of 1/2); s, t: strings, u: int
-KEYPOOL = dict(g=['b', 'a', 'B', 'ab', 'aa', 'c', 'Z', 'ba', 'é', 'a b'], h=[3, -2, 0, 1, 10, 11, 2], f=[2.5, -1.0, 0.5, 10.0, 2.0, -0.5])
+KEYPOOL = dict(g=['b', 'a', 'B', 'ab', 'aa', 'c', 'Z', 'ba', 'é', 'a b', '', ' a', '10', '9'], h=[3, -2, 0, 1, 10, 11, 2, 100, -10],
+               f=[2.5, -1.0, 0.5, 10.0, 2.0, -0.5, 100.5])
 SEQS = ['CASSL', 'CASSF', 'CASL', 'CASSLG', 'CAT', 'CATS', 'DASSL', 'C', 'CASSLGQ', 'AASSL']
+LONG = 'CASS' + 'GQETQYF' * 18                   # 130 residues (> 127)
+# a second sequence pool: long, lower case, non-ASCII, empty
+SEQS2 = ['CASSL', LONG, LONG[:60] + 'A' + LONG[61:], LONG[:-1], 'cassl', 'CÄSSL', '', 'CASSLG', 'C', 'CASSF']
 WEIGHTS = [1, 2, 3, 5, 0.5, 2.5]
-BASES = [2.0, math.e, 10.0, None, 0.5, 3.7, 2]
-EDGES = [[0, 1, 2, 3], [0, 1, 2, 3, 4, 5, 6], [0.5, 1.5, 2.5], [0, 2, 5], [1, 3], [0, 1], [0, 1, 2, 3, 4, 5, 6, 7, 8, 9, 10]]
+WEIGHTS2 = [1, 2, 3, 5, 0.5, 2.5, 0, -2, -0.5, 100, 7.5]    # the mean is w^2-weighted: a sign does not matter, a zero weight drops the group
+BASES = [2.0, math.e, 10.0, None, 0.5, 3.7, 2, 16, 0.1, 1e6, 1.5, 3]
+BADBASES = [0, -1.5, -2, 0.0, -1e-9]
+EDGES = [[0, 1, 2, 3], [0, 1, 2, 3, 4, 5, 6], [0.5, 1.5, 2.5], [0, 2, 5], [1, 3], [0, 1], [0, 1, 2, 3, 4, 5, 6, 7, 8, 9, 10], [0, 2, 127, 128, 131]]
+E25 = list(range(25))                            # pcDelta's default bins: np.arange(0, 25)
+GAPS = ['-', '|', '__', '~~']
+PENDING = True      # D24 (categorical grouping column with an unused category; repaired in /repo by f30df08): the cases run by default
 
 
 # ---------------------------------------------------------------- encoding of a case for the model
@@ -59,6 +68,75 @@ def table_strs(rows, by, col='s'):
 
 def make_df(rows):
     return pd.DataFrame([list(r) for r in rows], columns=COLS)
+
+
+def build_df(case):
+    """the table of a case as the caller holds it: column dtypes, row labels (index), extra / reordered columns. None of these is
+    part of a group, of a feature value or of a sequence, so no stated value depends on them."""
+    df = make_df(case['rows'])
+    for c, dt in sorted((case.get('dtypes') or {}).items()):
+        conv = df[c].astype(dt)
+        if conv.tolist() == df[c].tolist():             # only a dtype that holds every cell unchanged (1000 is not an int8)
+            df[c] = conv
+    lay = case.get('layout')
+    if lay in ('extra', 'extra_rev'):
+        df.insert(0, 'a0', [None, 'x', 3][:len(df)] + [float('nan')] * max(0, len(df) - 3))
+        df['zz'] = float('nan')
+    if lay in ('rev', 'extra_rev'):
+        df = df[list(df.columns)[::-1]]
+    if case.get('index') is not None:
+        df.index = list(case['index'])
+    return df
+
+
+def gen_index(rng, n):
+    """row labels: default, shifted, reversed, permuted, strings, negative, float, repeated labels (stacked tables)"""
+    k = rng.choice(['range', 'range', 'shift', 'rev', 'perm', 'str', 'neg', 'float', 'dup2', 'dup0', 'dup3', 'dupstr'])
+    if k == 'range':
+        return k, None
+    if k == 'shift':
+        return k, list(range(1000, 1000 + n))
+    if k == 'rev':
+        return k, list(range(n))[::-1]
+    if k == 'perm':
+        p = list(range(n))
+        rng.shuffle(p)
+        return k, p
+    if k == 'str':
+        p = ['r%d' % i for i in range(n)]
+        rng.shuffle(p)
+        return k, p
+    if k == 'neg':
+        return k, [-3 * i for i in range(n)]
+    if k == 'float':
+        return k, [0.5 * i for i in range(n)]
+    if k == 'dup2':
+        return k, [i // 2 for i in range(n)]
+    if k == 'dup0':
+        return k, [0] * n
+    if k == 'dup3':
+        return k, [i % 3 for i in range(n)]
+    return k, ['xy'[i % 2] for i in range(n)]
+
+
+def tok_str(rows, cols):
+    """the rows of several columns as strings over a private alphabet: equal exactly when the rows coincide in every column"""
+    d = {}
+    return [chr(0x4e00 + d.setdefault(tuple(r[COLS.index(c)] for c in cols), len(d))) for r in rows]
+
+
+def invoke(style, f, req, opt=(), kw=None):
+    """one public call in one of three spellings of the same arguments. req: [(parameter name, value)] in signature order;
+    opt: [(name, value, given, documented default)] the optional positional parameters in signature order; kw: what goes to **kwargs.
+    'default': required positionally, given options by keyword; 'positional': everything positionally up to the last given option;
+    'keyword': every parameter by name, the options not given with their documented default."""
+    kw = dict(kw or {})
+    if style == 'keyword':
+        return call_impl(f, **dict(req), **{n: v if g else d for n, v, g, d in opt}, **kw)
+    if style == 'positional':
+        last = max([i for i, o in enumerate(opt) if o[2]], default=-1)
+        return call_impl(f, *[v for _, v in req], *[v if g else d for _, v, g, d in opt[:last + 1]], **kw)
+    return call_impl(f, *[v for _, v in req], **{n: v for n, v, g, _ in opt if g}, **kw)
 
 
 def nm(x):
@@ -223,10 +301,86 @@ def requests(case):
             ('api_c13_pcdelta_cross_condensed', [edges, case['norm'], ts]), ('api_c13_pcdelta_cross0_condensed', [ts]),
             ('api_c13_pcdelta_cross0_square', [ts]),
             ('api_c13_renyi2_arg', [True, isinstance(feat, list), None, tf]), ('api_c13_renyi2_arg', [False, isinstance(feat, list), w, tf]),
-            ('api_c13_std_parts', [[x for _, x in tf]]), ('api_c13_conditional', [wbad, tn])]
+            ('api_c13_std_parts', [[x for _, x in tf]]), ('api_c13_conditional', [wbad, tn])] + (extra_requests(case, edges, ts) if case.get('extras') else [])
+
+
+def extra_requests(case, edges, ts):
+    """requests 13..19: the histograms as counts (pseudocount form), the default bins, the rows of the columns (s, t) as sequences"""
+    rows, by = case['rows'], case['by']
+    tst = list(zip([row_key(r, by) for r in rows], tok_str(rows, ['s', 't'])))
+    e25 = [Fraction(e) for e in E25]
+    # a family that is not asked gets the table without rows (the model aligns every pair of sequences for each of these requests)
+    tk = ts if 'pcdelta_kwargs' in case['extras'] else []
+    td = ts if 'bins_default' in case['extras'] else []
+    return [('api_c13_pcdelta_grouped', [edges, False, tk]), ('api_c13_pcdelta_cross_condensed', [edges, False, tk]),
+            ('api_c13_pcdelta_grouped', [e25, case['norm'], td]), ('api_c13_pcdelta_cross_condensed', [e25, case['norm'], td]),
+            ('api_c13_pcdelta_grouped0', [tst]), ('api_c13_pcdelta_cross0_square', [tst]), ('api_c13_pcdelta_cross0_condensed', [tst])]
 
 
 NREQ = 13
+
+
+def weights_obj(case):
+    """the weights are aligned with the sorted surviving groups BY POSITION whatever container carries them: list, ndarray (float / int32),
+    tuple, or a pandas Series whose index has nothing to do with the group keys"""
+    wk = case.get('w_kind', 'array' if case.get('w_array') else 'list')
+    wv = list(case['w'])
+    if wk == 'array_int':
+        return np.array(wv, dtype=np.int32) if all(float(x) == int(x) for x in wv) else np.array(wv, dtype=float)
+    if wk == 'range' and len(wv) >= 1 and wv == list(range(int(wv[0]), int(wv[0]) + len(wv))):
+        return range(int(wv[0]), int(wv[0]) + len(wv))
+    return {'list': wv, 'array': np.array(wv), 'tuple': tuple(wv),
+            'series': pd.Series(wv, index=['w%d' % (len(wv) - i) for i in range(len(wv))]),
+            'series_int': pd.Series(wv, index=list(range(len(wv)))[::-1])}.get(wk, wv)
+
+
+def edges_obj(case):
+    e = case['edges']
+    k = case.get('edges_kind', 'array' if case.get('edges_array') else 'list')
+    if k == 'range':
+        k = 'range' if all(float(x) == int(x) for x in e) and list(e) == list(range(int(e[0]), int(e[0]) + len(e))) else 'tuple'
+    if k == 'range':
+        return range(int(e[0]), int(e[0]) + len(e))
+    if k == 'array_i32':
+        k = 'array_i32' if all(float(x) == int(x) for x in e) else 'array_float'
+    return {'list': list(e), 'array': np.array(e), 'tuple': tuple(e), 'array_float': np.array(e, dtype=float),
+            'array_i32': np.array(e, dtype=np.int32) if k == 'array_i32' else None}[k]
+
+
+def base_obj(case, base):
+    k = case.get('base_kind', 'py')
+    if base is None or k == 'py':
+        return base
+    if k == 'np.int64' and float(base) == int(base):
+        return np.int64(int(base))
+    return np.float64(base)
+
+
+def external_by(case, df):
+    """the grouping given as values instead of column labels (pandas groupby: arrays, Series, mapping or function of the row label)"""
+    cols = bycols(case['by'])
+    k = case.get('by_ext', 'ndarray')
+    unique = df.index.is_unique
+    if len(cols) > 1 or isinstance(case['by'], list) and k == 'arrays':
+        if k == 'mixed':
+            return 'mixed', [cols[0]] + [df[c].to_numpy() for c in cols[1:]]
+        return 'arrays', [df[c].to_numpy() for c in cols]
+    c = cols[0]
+    if k in ('series', 'function', 'dict') and unique:
+        if k == 'series':
+            return k, df[c]
+        m = dict(zip(df.index.tolist(), df[c].tolist()))
+        return (k, m) if k == 'dict' else (k, (lambda lab, m=m: m[lab]))
+    return 'ndarray', df[c].to_numpy()
+
+
+def pseudo_rows(counts, c):
+    """pcDelta with a pseudocount c > 0: (count + c) / (total + 2c) (model/PcDelta.pseudo, C05)"""
+    out = []
+    for m in counts:
+        tot = sum(m)
+        out.append([(x + c) / (tot + 2 * c) for x in m])
+    return out
 
 
 def evaluate(ctx, case, outs, light=False):
@@ -235,127 +389,291 @@ def evaluate(ctx, case, outs, light=False):
     import pyrepseq.distance as di
     import pyrepseq.entropy as en
     rows, by, on = case['rows'], case['by'], case['on']
-    (keys, cond, cross, pdg, pdg0, cidx, pdc, pdc0, pdsq, r_plain, r_cond, stdp, condbad) = outs
-    df = make_df(rows)
+    (keys, cond, cross, pdg, pdg0, cidx, pdc, pdc0, pdsq, r_plain, r_cond, stdp, condbad) = outs[:NREQ]
+    df = build_df(case)
+    style = case.get('style', 'default')
+    tag = '' if style == 'default' else ' [call style: %s]' % style
     k2p = {frz(row_key(r, by)): py_key(r, by) for r in rows}
     names = [k2p[frz(k)] for k in keys]
     pairs = [(k2p[frz(a)], k2p[frz(b)]) for a, b in cidx]
     bad = []
     byarg = by
+    T = [('df', df), ('by', byarg)]
     # -- pc_conditional
     kw = {}
     if case['w'] is not None:
-        # the weights are aligned with the sorted surviving groups BY POSITION whatever container carries them: list, ndarray,
-        # tuple, or a pandas Series whose index has nothing to do with the group keys
-        wk = case.get('w_kind', 'array' if case.get('w_array') else 'list')
-        wv = list(case['w'])
-        kw = dict(group_weights={'list': wv, 'array': np.array(wv), 'tuple': tuple(wv),
-                                 'series': pd.Series(wv, index=['w%d' % (len(wv) - i) for i in range(len(wv))]),
-                                 'series_int': pd.Series(wv, index=list(range(len(wv)))[::-1])}[wk])
-    r = call_impl(st.pc_conditional, df, byarg, on, **kw)
+        kw = dict(group_weights=weights_obj(case))
+    gw = [('group_weights', kw.get('group_weights'), bool(kw), None)]
+    r = invoke(style, st.pc_conditional, T + [('on', on)], gw)
     if not wire_ok(r, cond):
-        bad.append(('stats.pc_conditional', 'pc_conditional(by=%r, on=%r, %r) = %s, model %s' % (by, on, kw, r, cond)))
+        bad.append(('stats.pc_conditional', 'pc_conditional(by=%r, on=%r, %r)%s = %s, model %s' % (by, on, kw, tag, r, cond)))
     if case.get('wbad') is not None:
         r = call_impl(st.pc_conditional, df, byarg, on, group_weights=case['wbad'])
         if condbad[0] == 2 and r[0] != 'exc':
             bad.append(('stats.pc_conditional[weights]', 'pc_conditional accepted %d weights for another number of groups: %s' % (len(case['wbad']), r)))
     # -- pc_grouped_cross
-    r = call_impl(st.pc_grouped_cross, df, byarg, on)
+    r = invoke(style, st.pc_grouped_cross, T + [('on', on)])
     if r[0] != 'ok' or not matrix_ok(r[1], names, cross):
-        bad.append(('stats.pc_grouped_cross', 'pc_grouped_cross(by=%r, on=%r) =\n%s\nmodel: groups %s matrix %s' % (by, on, r[1], names, cross)))
+        bad.append(('stats.pc_grouped_cross', 'pc_grouped_cross(by=%r, on=%r)%s =\n%s\nmodel: groups %s matrix %s' % (by, on, tag, r[1], names, cross)))
     if light:
         edges_calls = []
     else:
-        edges_calls = [case['edges'] if not case.get('edges_array') else np.array(case['edges'])]
+        edges_calls = [edges_obj(case)]
+    S = T + [('seq_columns', 's')]
+    kwn = (dict(normalize=True) if style == 'keyword' else {}) if case['norm'] else dict(normalize=False)
     # -- pcDelta_grouped
     for e in edges_calls:
-        kwn = {} if case['norm'] else dict(normalize=False)
-        r = call_impl(di.pcDelta_grouped, df, byarg, 's', bins=e, **kwn)
+        r = invoke(style, di.pcDelta_grouped, S, kw=dict(bins=e, **kwn))
         a = by_label(r[1], names) if r[0] == 'ok' else None
         if a is None or not rows_ok(a, [m for _, m in pdg]):
-            bad.append(('distance.pcDelta_grouped', 'pcDelta_grouped(by=%r, bins=%r, %r) =\n%s\nmodel %s' % (by, e, kwn, r[1], pdg)))
-        r = call_impl(di.pcDelta_grouped_cross, df, byarg, 's', condensed=True, bins=e, **kwn)
+            bad.append(('distance.pcDelta_grouped', 'pcDelta_grouped(by=%r, bins=%r, %r)%s =\n%s\nmodel %s' % (by, e, kwn, tag, r[1], pdg)))
+        r = invoke(style, di.pcDelta_grouped_cross, S, [('condensed', True, True, False)], dict(bins=e, **kwn))
         a = pairs_by_label(r[1], pairs) if r[0] == 'ok' else None
         if a is None or not rows_ok(a, pdc):
-            bad.append(('distance.pcDelta_grouped_cross[condensed]', 'pcDelta_grouped_cross(by=%r, condensed=True, bins=%r, %r) =\n%s\nmodel %s %s' % (by, e, kwn, r[1], pairs, pdc)))
+            bad.append(('distance.pcDelta_grouped_cross[condensed]', 'pcDelta_grouped_cross(by=%r, condensed=True, bins=%r, %r)%s =\n%s\nmodel %s %s' % (by, e, kwn, tag, r[1], pairs, pdc)))
     # -- bins = 0: the coincidence form
-    r = call_impl(di.pcDelta_grouped, df, byarg, 's', bins=0)
+    r = invoke(style, di.pcDelta_grouped, S, kw=dict(bins=0))
     a = by_label(r[1], names) if r[0] == 'ok' else None
     if a is None or not rows_ok(a, [None if m is None else [m] for _, m in pdg0]):
-        bad.append(('distance.pcDelta_grouped[bins=0]', 'pcDelta_grouped(by=%r, bins=0) =\n%s\nbut the pcDelta (= pc) of each group alone is %s' % (by, r[1], [(k2p[frz(k)], str(m)) for k, m in pdg0])))
-    r = call_impl(di.pcDelta_grouped_cross, df, byarg, 's', bins=0)
+        bad.append(('distance.pcDelta_grouped[bins=0]', 'pcDelta_grouped(by=%r, bins=0)%s =\n%s\nbut the pcDelta (= pc) of each group alone is %s' % (by, tag, r[1], [(k2p[frz(k)], str(m)) for k, m in pdg0])))
+    r = invoke(style, di.pcDelta_grouped_cross, S, [('condensed', False, False, False)], dict(bins=0))
     if r[0] != 'ok' or not matrix_ok(r[1], names, pdsq):
-        bad.append(('distance.pcDelta_grouped_cross[square]', 'pcDelta_grouped_cross(by=%r, bins=0) =\n%s\nmodel (within-group value on the diagonal): groups %s matrix %s' % (by, r[1], names, pdsq)))
+        bad.append(('distance.pcDelta_grouped_cross[square]', 'pcDelta_grouped_cross(by=%r, bins=0)%s =\n%s\nmodel (within-group value on the diagonal): groups %s matrix %s' % (by, tag, r[1], names, pdsq)))
     # -- the sequence given as TWO columns (paired chains: first residue / rest, so rows coincide exactly when the sequences do and some
     #    rows share one column only): the coincidence form of a list of columns is that of the rows, value for value as above
-    df2 = df.assign(CDR3A=[str(x)[:1] for x in df['s']], CDR3B=[str(x)[1:] for x in df['s']])
-    ctx.count('paired_columns_bins0')
-    r = call_impl(di.pcDelta_grouped_cross, df2, byarg, ['CDR3A', 'CDR3B'], bins=0)
-    if r[0] != 'ok' or not matrix_ok(r[1], names, pdsq):
-        bad.append(('distance.pcDelta_grouped_cross[square,two columns]', 'pcDelta_grouped_cross(by=%r, seq_columns=[CDR3A, CDR3B], bins=0) =\n%s\nmodel (rows '
-                    'coincide iff both columns do): groups %s matrix %s' % (by, r[1], names, pdsq)))
-    r = call_impl(di.pcDelta_grouped, df2, byarg, ['CDR3A', 'CDR3B'], bins=0)
-    a = by_label(r[1], names) if r[0] == 'ok' else None
-    if a is None or not rows_ok(a, [None if m is None else [m] for _, m in pdg0]):
-        bad.append(('distance.pcDelta_grouped[bins=0,two columns]', 'pcDelta_grouped(by=%r, seq_columns=[CDR3A, CDR3B], bins=0) =\n%s\nbut the pc of each '
-                    'group\'s rows is %s' % (by, r[1], [(k2p[frz(k)], str(m)) for k, m in pdg0])))
+    if case.get('paired', True):
+        df2 = df.assign(CDR3A=[str(x)[:1] for x in df['s']], CDR3B=[str(x)[1:] for x in df['s']])
+        ctx.count('paired_columns_bins0')
+        r = call_impl(di.pcDelta_grouped_cross, df2, byarg, ['CDR3A', 'CDR3B'], bins=0)
+        if r[0] != 'ok' or not matrix_ok(r[1], names, pdsq):
+            bad.append(('distance.pcDelta_grouped_cross[square,two columns]', 'pcDelta_grouped_cross(by=%r, seq_columns=[CDR3A, CDR3B], bins=0) =\n%s\nmodel (rows '
+                        'coincide iff both columns do): groups %s matrix %s' % (by, r[1], names, pdsq)))
+        r = call_impl(di.pcDelta_grouped, df2, byarg, ['CDR3A', 'CDR3B'], bins=0)
+        a = by_label(r[1], names) if r[0] == 'ok' else None
+        if a is None or not rows_ok(a, [None if m is None else [m] for _, m in pdg0]):
+            bad.append(('distance.pcDelta_grouped[bins=0,two columns]', 'pcDelta_grouped(by=%r, seq_columns=[CDR3A, CDR3B], bins=0) =\n%s\nbut the pc of each '
+                        'group\'s rows is %s' % (by, r[1], [(k2p[frz(k)], str(m)) for k, m in pdg0])))
     if not light:
-        r = call_impl(di.pcDelta_grouped_cross, df, byarg, 's', condensed=True, bins=0)
+        r = invoke(style, di.pcDelta_grouped_cross, S, [('condensed', True, True, False)], dict(bins=0))
         a = pairs_by_label(r[1], pairs) if r[0] == 'ok' else None
         if a is None or not rows_ok(a, [None if m is None else [m] for m in pdc0]):
-            bad.append(('distance.pcDelta_grouped_cross[condensed,bins=0]', 'pcDelta_grouped_cross(by=%r, condensed=True, bins=0) =\n%s\nmodel %s %s' % (by, r[1], pairs, pdc0)))
+            bad.append(('distance.pcDelta_grouped_cross[condensed,bins=0]', 'pcDelta_grouped_cross(by=%r, condensed=True, bins=0)%s =\n%s\nmodel %s %s' % (by, tag, r[1], pairs, pdc0)))
         # -- entropies
         feat, base = case['features'], case['base']
-        kb = {} if case.get('base_default') else dict(base=base)
+        given = not case.get('base_default')
         if case.get('base_default'):
             base = 2.0
+        barg = base_obj(case, base)
+        kb = dict(base=barg) if given else {}
         fsel = feat
-        r = call_impl(en.renyi2_entropy, df, fsel, **kb)
+        F = [('df', df), ('features', fsel)]
+        r = invoke(style, en.renyi2_entropy, F, [('by', None, False, None), ('base', barg, given, 2.0)])
         if not entropy_ok(r, r_plain, base):
-            bad.append(('entropy.renyi2_entropy', 'renyi2_entropy(features=%r, %r) = %s, but pc = %s' % (feat, kb, r, r_plain)))
-        r = call_impl(en.renyi2_entropy, df, fsel, by=byarg, **kb, **kw)
+            bad.append(('entropy.renyi2_entropy', 'renyi2_entropy(features=%r, %r)%s = %s, but pc = %s' % (feat, kb, tag, r, r_plain)))
+        r = invoke(style, en.renyi2_entropy, F, [('by', byarg, True, None), ('base', barg, given, 2.0)], kw)
         if not entropy_ok(r, r_cond, base):
-            bad.append(('entropy.renyi2_entropy[by]', 'renyi2_entropy(features=%r, by=%r, %r, %r) = %s, but pc_conditional = %s' % (feat, by, kb, kw, r, r_cond)))
-        r = call_impl(en.stdrenyi2_entropy, df, fsel, **kb)
+            bad.append(('entropy.renyi2_entropy[by]', 'renyi2_entropy(features=%r, by=%r, %r, %r)%s = %s, but pc_conditional = %s' % (feat, by, kb, kw, tag, r, r_cond)))
+        r = invoke(style, en.stdrenyi2_entropy, F, [('base', barg, given, 2.0)])
         v = std_ok(r, stdp, base)
         if v is False:
-            bad.append(('entropy.stdrenyi2_entropy', 'stdrenyi2_entropy(features=%r, %r) = %s, but (defined, varpc, pc) = %s' % (feat, kb, r, stdp)))
+            bad.append(('entropy.stdrenyi2_entropy', 'stdrenyi2_entropy(features=%r, %r)%s = %s, but (defined, varpc, pc) = %s' % (feat, kb, tag, r, stdp)))
         ctx.count('std_defined' if v is not None else 'std_undefined')
-        for b0 in (0, -1.5):
+        for b0 in case.get('badbases', (0, -1.5)):
             for f in (en.renyi2_entropy, en.stdrenyi2_entropy):
                 r = call_impl(f, df, fsel, base=b0)
                 if r[0] != 'exc':
                     bad.append(('entropy.base', '%s accepted base=%r' % (f.__name__, b0)))
+        bad += evaluate_extras(ctx, case, outs, df, names, pairs, k2p, kw, kwn, base, barg, given)
     return bad, names
 
 
+def evaluate_extras(ctx, case, outs, df, names, pairs, k2p, kw, kwn, base, barg, given):
+    """the rarely used spellings of the same questions; every one is answered by the same model values"""
+    import pyrepseq.stats as st
+    import pyrepseq.distance as di
+    import pyrepseq.entropy as en
+    from pyrepseq.metric import Levenshtein
+    (keys, cond, cross, pdg, pdg0, cidx, pdc, pdc0, pdsq, r_plain, r_cond, stdp, condbad) = outs[:NREQ]
+    extras = case.get('extras') or []
+    if not extras:
+        return []
+    cnt_g, cnt_c, d_g, d_c, st_g0, st_sq, st_c0 = outs[NREQ:NREQ + 7]
+    by, on, feat = case['by'], case['on'], case['features']
+    bad = []
+    for x in extras:
+        ctx.count('extra:' + x)
+    if 'bins_default' in extras:
+        # no `bins` at all / bins=None: pcDelta's default edges 0, 1, ..., 24
+        for kwb in ({}, dict(bins=None)):
+            r = call_impl(di.pcDelta_grouped, df, by, 's', **kwb, **kwn)
+            a = by_label(r[1], names) if r[0] == 'ok' else None
+            if a is None or not rows_ok(a, [m for _, m in d_g]):
+                bad.append(('distance.pcDelta_grouped[default bins]', 'pcDelta_grouped(by=%r, %r, %r) =\n%s\nmodel (edges 0..24) %s' % (by, kwb, kwn, r[1], d_g)))
+            r = call_impl(di.pcDelta_grouped_cross, df, by, 's', True, **kwb, **kwn)
+            a = pairs_by_label(r[1], pairs) if r[0] == 'ok' else None
+            if a is None or not rows_ok(a, d_c):
+                bad.append(('distance.pcDelta_grouped_cross[default bins]', 'pcDelta_grouped_cross(by=%r, condensed=True, %r, %r) =\n%s\nmodel (edges 0..24) %s %s' % (by, kwb, kwn, r[1], pairs, d_c)))
+    if 'pcdelta_kwargs' in extras:
+        # everything in **kwargs reaches pcDelta: pseudocount, maxseqs (no fewer than there are rows: nothing is dropped), metric (the default one, named)
+        pk = case.get('pcd_kwargs') or dict(pseudocount=0.5)
+        kwp = {k: v for k, v in pk.items() if k != 'metric'}
+        if pk.get('metric'):
+            kwp['metric'] = Levenshtein()
+        c = Fraction(pk.get('pseudocount', 0)).limit_denominator(4)
+        e = edges_obj(case)
+        if not case['norm']:
+            want_g, want_c = [m for _, m in cnt_g], cnt_c
+        elif c == 0:
+            want_g, want_c = [m for _, m in pdg], pdc
+        else:
+            want_g, want_c = pseudo_rows([m for _, m in cnt_g], c), pseudo_rows(cnt_c, c)
+        r = call_impl(di.pcDelta_grouped, df, by, 's', bins=e, **kwn, **kwp)
+        a = by_label(r[1], names) if r[0] == 'ok' else None
+        if a is None or not rows_ok(a, want_g):
+            bad.append(('distance.pcDelta_grouped[kwargs]', 'pcDelta_grouped(by=%r, bins=%r, %r, %r) =\n%s\nthe pcDelta of each group alone with these options: %s' % (by, e, kwn, pk, r[1], [[str(q) for q in m] if m else m for m in want_g])))
+        r = call_impl(di.pcDelta_grouped_cross, df, by, 's', condensed=True, bins=e, **kwn, **kwp)
+        a = pairs_by_label(r[1], pairs) if r[0] == 'ok' else None
+        if a is None or not rows_ok(a, want_c):
+            bad.append(('distance.pcDelta_grouped_cross[kwargs]', 'pcDelta_grouped_cross(by=%r, condensed=True, bins=%r, %r, %r) =\n%s\nthe two-collection pcDelta of %s with these options: %s' % (by, e, kwn, pk, r[1], pairs, [[str(q) for q in m] if m else m for m in want_c])))
+        if 'maxseqs' in kwp or 'metric' in kwp:
+            kw0 = {k: v for k, v in kwp.items() if k != 'pseudocount'}
+            r = call_impl(di.pcDelta_grouped_cross, df, by, 's', bins=0, **kw0)
+            if r[0] != 'ok' or not matrix_ok(r[1], names, pdsq):
+                bad.append(('distance.pcDelta_grouped_cross[square,kwargs]', 'pcDelta_grouped_cross(by=%r, bins=0, %r) =\n%s\nmodel: groups %s matrix %s' % (by, pk, r[1], names, pdsq)))
+    if 'by_external' in extras:
+        kind, bx = external_by(case, df)
+        ctx.count('by given as %s' % kind)
+        r = call_impl(st.pc_grouped_cross, df, bx, on)
+        if r[0] != 'ok' or not matrix_ok(r[1], names, cross):
+            bad.append(('stats.pc_grouped_cross[by values]', 'pc_grouped_cross(by=<%s of the column(s) %r>, on=%r) =\n%s\nmodel: groups %s matrix %s' % (kind, by, on, r[1], names, cross)))
+        r = call_impl(di.pcDelta_grouped, df, bx, 's', bins=0)
+        a = by_label(r[1], names) if r[0] == 'ok' else None
+        if a is None or not rows_ok(a, [None if m is None else [m] for _, m in pdg0]):
+            bad.append(('distance.pcDelta_grouped[by values]', 'pcDelta_grouped(by=<%s of the column(s) %r>, bins=0) =\n%s\nbut the pc of each group alone is %s' % (kind, by, r[1], [(k2p[frz(k)], str(m)) for k, m in pdg0])))
+        r = call_impl(di.pcDelta_grouped_cross, df, bx, 's', bins=0)
+        if r[0] != 'ok' or not matrix_ok(r[1], names, pdsq):
+            bad.append(('distance.pcDelta_grouped_cross[by values]', 'pcDelta_grouped_cross(by=<%s of the column(s) %r>, bins=0) =\n%s\nmodel: groups %s matrix %s' % (kind, by, r[1], names, pdsq)))
+        e = edges_obj(case)
+        r = call_impl(di.pcDelta_grouped_cross, df, bx, 's', condensed=True, bins=e, **kwn)
+        a = pairs_by_label(r[1], pairs) if r[0] == 'ok' else None
+        if a is None or not rows_ok(a, pdc):
+            bad.append(('distance.pcDelta_grouped_cross[condensed,by values]', 'pcDelta_grouped_cross(by=<%s of the column(s) %r>, condensed=True, bins=%r, %r) =\n%s\nmodel %s %s' % (kind, by, e, kwn, r[1], pairs, pdc)))
+    if 'seq_list' in extras:
+        # seq_columns as a list: of the one column (the same sequences), of the columns (s, t) (a row = both cells)
+        for cols, g0, sq, c0 in ((['s'], pdg0, pdsq, pdc0), (['s', 't'], st_g0, st_sq, st_c0)):
+            r = call_impl(di.pcDelta_grouped, df, by, cols, bins=0)
+            a = by_label(r[1], names) if r[0] == 'ok' else None
+            if a is None or not rows_ok(a, [None if m is None else [m] for _, m in g0]):
+                bad.append(('distance.pcDelta_grouped[bins=0,column list]', 'pcDelta_grouped(by=%r, seq_columns=%r, bins=0) =\n%s\nbut the pc of each group\'s rows is %s' % (by, cols, r[1], [(k2p[frz(k)], str(m)) for k, m in g0])))
+            r = call_impl(di.pcDelta_grouped_cross, df, by, cols, bins=0)
+            if r[0] != 'ok' or not matrix_ok(r[1], names, sq):
+                bad.append(('distance.pcDelta_grouped_cross[square,column list]', 'pcDelta_grouped_cross(by=%r, seq_columns=%r, bins=0) =\n%s\nmodel: groups %s matrix %s' % (by, cols, r[1], names, sq)))
+            r = call_impl(di.pcDelta_grouped_cross, df, by, cols, True, bins=0)
+            a = pairs_by_label(r[1], pairs) if r[0] == 'ok' else None
+            if a is None or not rows_ok(a, [None if m is None else [m] for m in c0]):
+                bad.append(('distance.pcDelta_grouped_cross[condensed,column list]', 'pcDelta_grouped_cross(by=%r, seq_columns=%r, condensed=True, bins=0) =\n%s\nmodel %s %s' % (by, cols, r[1], pairs, c0)))
+    if 'gap_token' in extras:
+        # the separator of the joined feature cells is free as long as no cell contains it: the same stdpc / (pc ln base)
+        tok = case.get('gap_token', '-')
+        kb = dict(base=barg) if given else {}
+        r = call_impl(en.stdrenyi2_entropy, df, feat, gap_token=tok, **kb)
+        if std_ok(r, stdp, base) is False:
+            bad.append(('entropy.stdrenyi2_entropy[gap_token]', 'stdrenyi2_entropy(features=%r, %r, gap_token=%r) = %s, but (defined, varpc, pc) = %s' % (feat, kb, tok, r, stdp)))
+    if 'repeat' in extras:
+        # the same questions once more on the same objects (table, weights) after everything above
+        r = call_impl(st.pc_conditional, df, by, on, **kw)
+        if not wire_ok(r, cond):
+            bad.append(('stats.pc_conditional[again]', 'second pc_conditional(by=%r, on=%r, %r) on the same table and weights = %s, model %s' % (by, on, kw, r, cond)))
+        kb = dict(base=barg) if given else {}
+        r = call_impl(en.renyi2_entropy, df, feat, by, **kb, **kw)
+        if not entropy_ok(r, r_cond, base):
+            bad.append(('entropy.renyi2_entropy[by,again]', 'second renyi2_entropy(features=%r, by=%r, %r, %r) = %s, but pc_conditional = %s' % (feat, by, kb, kw, r, r_cond)))
+        r = call_impl(st.pc_grouped_cross, df, by, on)
+        if r[0] != 'ok' or not matrix_ok(r[1], names, cross):
+            bad.append(('stats.pc_grouped_cross[again]', 'second pc_grouped_cross(by=%r, on=%r) =\n%s\nmodel: groups %s matrix %s' % (by, on, r[1], names, cross)))
+        r = call_impl(di.pcDelta_grouped_cross, df, by, 's', bins=0)
+        if r[0] != 'ok' or not matrix_ok(r[1], names, pdsq):
+            bad.append(('distance.pcDelta_grouped_cross[square,again]', 'second pcDelta_grouped_cross(by=%r, bins=0) =\n%s\nmodel: groups %s matrix %s' % (by, r[1], names, pdsq)))
+    return bad
+
+
 def nontrivial(outs):
-    (keys, cond, cross, pdg, pdg0, cidx, pdc, pdc0, pdsq, r_plain, r_cond, stdp, condbad) = outs
+    (keys, cond, cross, pdg, pdg0, cidx, pdc, pdc0, pdsq, r_plain, r_cond, stdp, condbad) = outs[:NREQ]
     big = sum(1 for _, m in pdg0 if m is not None)
     return big >= 2 and cond[0] == 0 and 0 < cond[1] < 1 and any(x is not None and 0 < x < 1 for row in cross for x in row)
 
 
 def report(ctx, case, bad):
     for site, msg in bad:
-        ctx.violation('property', msg + '\ntable rows (g, h, f, s, t, u): %s' % case['rows'], dict(case=case, site=site), site=site)
+        opts = {k: case[k] for k in ('index_kind', 'dtypes', 'layout', 'style') if case.get(k) not in (None, 'range', 'default', {})}
+        ctx.violation('property', msg + '\ntable rows (g, h, f, s, t, u): %s%s' % (case['rows'] if len(case['rows']) <= 40 else '%s ... (%d rows, all in the replay)'
+                                                                                  % (case['rows'][:40], len(case['rows'])), '\ntable as held by the caller: %s' % opts if opts else ''),
+                      dict(case=case, site=site), site=site)
 
 
 # ---------------------------------------------------------------- generators
-def gen_case(rng, quick):
+# column dtypes a caller's table may carry; none changes a key, a feature value or a sequence
+DTYPES = dict(g=['object', 'string'], h=['int8', 'int32', 'Int64', 'float64', 'object'], f=['float32', 'object'],
+              s=['object', 'string', 'category'], t=['object', 'category', 'string'], u=['int8', 'uint8', 'float64', 'Int64', 'object'])
+EXTRAS = ['bins_default', 'pcdelta_kwargs', 'by_external', 'seq_list', 'gap_token', 'repeat']
+ONS = ['s', 's', ['s'], ['s', 't'], ['s', 't', 'u'], 't', 'u', ['t', 'u'], ['s', 's'], ['u', 's']]
+
+
+def gen_options(rng, case, nextras=None):
+    """how the same table and the same questions are handed over: row labels, column dtypes, column layout, spelling of the calls,
+    containers of weights / edges / base, and which of the rarely used forms are asked as well"""
+    n = len(case['rows'])
+    cols = bycols(case['by'])
+    case['index_kind'], case['index'] = gen_index(rng, n)
+    dt = {}
+    if rng.random() < 0.5:
+        for c in rng.sample(COLS, rng.choice([1, 1, 2, 3])):
+            dt[c] = rng.choice(DTYPES[c])
+    if PENDING and rng.random() < 0.5:
+        dt[rng.choice(cols)] = 'category'          # POSSIBLE DEFECT (NOTES.md): categorical grouping column with a singleton group
+    case['dtypes'] = dt
+    case['layout'] = rng.choice([None, None, None, 'extra', 'rev', 'extra_rev'])
+    case['style'] = rng.choice(['default', 'default', 'positional', 'keyword'])
+    case['edges_kind'] = rng.choice(['list', 'list', 'array', 'array', 'tuple', 'range', 'array_float', 'array_i32'])
+    case['base_kind'] = rng.choice(['py', 'py', 'py', 'np.float64', 'np.int64'])
+    case['badbases'] = rng.sample(BADBASES, 2)
+    k = rng.choice([0, 1, 1, 2]) if nextras is None else nextras
+    case['extras'] = sorted(rng.sample(EXTRAS, k))
+    pk = dict(pseudocount=rng.choice([0.5, 0.5, 1, 2.5, 0.25, 0]))
+    if rng.random() < 0.3:
+        del pk['pseudocount']
+    if rng.random() < 0.5:
+        pk['maxseqs'] = rng.choice([n, n + 1, 10 ** 6])
+    if rng.random() < 0.4 or not pk:
+        pk['metric'] = True
+    case['pcd_kwargs'] = pk
+    case['by_ext'] = rng.choice(['ndarray', 'ndarray', 'series', 'function', 'dict', 'arrays', 'mixed'])
+    case['gap_token'] = rng.choice(GAPS)
+    if 'by_external' in case['extras'] and case['by_ext'] in ('series', 'function', 'dict') and case['index_kind'].startswith('dup'):
+        case['index_kind'], case['index'] = 'perm', rng.sample(range(n), n)       # these three address rows by their label: labels must be unique
+    return case
+
+
+def gen_case(rng, quick, shape=None, keypool=None, sizes_of=None, cols=None):
     nby = rng.choice([1, 1, 1, 2, 2, 3])
-    cols = rng.sample(['g', 'h', 'f'], nby)
+    cols = rng.sample(['g', 'h', 'f'], nby) if cols is None else cols
+    nby = len(cols)
     by = cols[0] if (nby == 1 and rng.random() < 0.6) else cols
     nbig = rng.choice([0, 1, 2, 2, 3, 3, 4, 5])
     nsingle = rng.choice([0, 0, 1, 1, 2, 3])
+    if shape is not None:
+        nbig, nsingle = shape
     if nbig + nsingle == 0:
         nsingle = 1
-    pools = [rng.sample(KEYPOOL[c], min(len(KEYPOOL[c]), rng.randint(2, 5))) for c in cols]
+    keypool = keypool or KEYPOOL
+    pools = [rng.sample(keypool[c], min(len(keypool[c]), rng.randint(2, 5) if shape is None else len(keypool[c]))) for c in cols]
     allkeys = list(itertools.product(*pools))
     rng.shuffle(allkeys)
     allkeys = allkeys[:nbig + nsingle]
     nbig = max(0, len(allkeys) - nsingle)
-    sizes = [rng.choice([2, 2, 3, 3, 4, 5, 7]) for _ in range(nbig)] + [1] * (len(allkeys) - nbig)
-    spool = rng.sample(SEQS, rng.randint(2, 5))
+    sizes = (sizes_of(nbig) if sizes_of else [rng.choice([2, 2, 3, 3, 4, 5, 7]) for _ in range(nbig)]) + [1] * (len(allkeys) - nbig)
+    # the second pool (130 residues, lower case, non-ASCII, the empty sequence) on the smaller tables only (up to 14 rows): the model aligns every pair
+    spool = rng.sample(SEQS, rng.randint(2, 5)) if sum(sizes) > 14 or rng.random() < (0.75 if quick else 0.6) else rng.sample(SEQS2, rng.randint(2, 5))
     tpool = rng.sample(['x', 'y', 'z', 'xy'], rng.randint(1, 3))
     rows = []
     for k, sz in zip(allkeys, sizes):
@@ -363,18 +681,25 @@ def gen_case(rng, quick):
         for _ in range(sz):
             rows.append([kd.get('g', 'q'), kd.get('h', 7), kd.get('f', 1.5), rng.choice(spool), rng.choice(tpool), rng.choice([1, 2, 12])])
     rng.shuffle(rows)
-    on = rng.choice(['s', 's', ['s'], ['s', 't'], ['s', 't', 'u'], 't', 'u', ['t', 'u']])
-    features = rng.choice(['s', ['s'], ['s', 't'], 't', ['t', 'u'], ['s', 't', 'u']])
-    w = None if rng.random() < 0.4 else [rng.choice(WEIGHTS) for _ in range(nbig)]
+    on = rng.choice(ONS)
+    features = rng.choice(['s', ['s'], ['s', 't'], 't', ['t', 'u'], ['s', 't', 'u'], ['t', 't'], 'u'])
+    wpool = WEIGHTS if rng.random() < 0.6 else WEIGHTS2
+    w = None if rng.random() < 0.4 else [rng.choice(wpool) for _ in range(nbig)]
+    if w is not None and nbig and not any(w):
+        w[rng.randrange(nbig)] = 2                      # the mean needs one non-zero weight
+    if w is not None and rng.random() < 0.12:
+        k = rng.choice([1, 2, 5])
+        w = list(range(k, k + nbig))                    # what a `range` can carry
     if w is not None and all(isinstance(x, int) for x in w) is False and rng.random() < 0.5:
         w = [float(x) for x in w]
     wbad = None
     if nbig >= 1 and rng.random() < 0.3:
-        wbad = [rng.choice(WEIGHTS) for _ in range(nbig + rng.choice([1, 2]))]
+        wbad = [rng.choice(WEIGHTS) for _ in range(nbig + rng.choice([1, 2, -1]))]
         if len(wbad) < 2:
             wbad = None
-    return dict(rows=rows, by=by, on=on, features=features, w=w, w_array=rng.random() < 0.3, w_kind=rng.choice(['list', 'array', 'tuple', 'series', 'series_int']), wbad=wbad, edges=rng.choice(EDGES), edges_array=rng.random() < 0.4,
-                norm=rng.random() < 0.8, base=rng.choice(BASES), base_default=rng.random() < 0.15)
+    case = dict(rows=rows, by=by, on=on, features=features, w=w, w_kind=rng.choice(['list', 'array', 'tuple', 'series', 'series_int', 'array_int', 'range']), wbad=wbad,
+                edges=rng.choice(EDGES), norm=rng.random() < 0.8, base=rng.choice(BASES), base_default=rng.random() < 0.15)
+    return gen_options(rng, case)
 
 
 def small_tables(nmax):
@@ -385,11 +710,38 @@ def small_tables(nmax):
                 yield [[k, 7, 1.5, s, 'x', 1] for k, s in zip(ks, ss)]
 
 
+def special_cases(rng, quick):
+    """tables of a shape the random generator does not reach: many groups, one large group, every row its own group, one group only"""
+    out = []
+    many = dict(g=[a + b for a in 'abAé ' for b in 'abc9'] + ['', 'a'], h=list(range(-12, 30, 3)) + [100, 1000, -1000], f=[0.5 * i for i in range(-7, 25, 3)])
+    for _ in range(3 if quick else 30):
+        ng = rng.randint(9, 14) if quick else rng.randint(9, 26)
+        c = gen_case(rng, quick, shape=(ng - 2, 2), keypool=many, cols=[rng.choice(['g', 'h', 'f'])])
+        c['kind'] = 'many groups'
+        out.append(c)
+    for _ in range(1 if quick else 6):
+        big = 130 if quick else rng.choice([130, 257, 300])
+        c = gen_case(rng, quick, shape=(3, 1), sizes_of=lambda n, big=big: ([big, 3, 2] + [2] * n)[:n])
+        c['kind'] = 'large group'
+        out.append(c)
+    for _ in range(2 if quick else 10):
+        c = gen_case(rng, quick, shape=(0, rng.randint(2, 6)))
+        c['kind'] = 'singletons only'
+        out.append(c)
+    for _ in range(2 if quick else 10):
+        c = gen_case(rng, quick, shape=(1, 0))
+        c['kind'] = 'one group'
+        out.append(c)
+    return out
+
+
 def run_cases(ctx, cases, light=False, sample_every=50):
-    reqs = [q for c in cases for q in requests(c)]
-    outs = ctx.oracle.run_parallel(reqs, nproc=8)
+    rq = [requests(c) for c in cases]
+    outs = ctx.oracle.run_parallel([q for r in rq for q in r], nproc=8)
+    at = 0
     for n, case in enumerate(cases):
-        o = outs[n * NREQ:(n + 1) * NREQ]
+        o = outs[at:at + len(rq[n])]
+        at += len(rq[n])
         err = [x for x in o if isinstance(x, Exception)]
         if err:
             ctx.violation('correspondence', 'oracle rejected a request: %s' % err[0], dict(case=case))
@@ -405,48 +757,97 @@ def run_cases(ctx, cases, light=False, sample_every=50):
             ctx.count('singletons=%d' % sum(1 for _, m in o[4] if m is None))
             ctx.count('groups>=2 members: %d' % min(4, sum(1 for _, m in o[4] if m is not None)))
             ctx.count('weights' if case['w'] is not None else 'uniform')
+            if case['w'] is not None:
+                wo = weights_obj(case)
+                ctx.count('weights as %s' % (case.get('w_kind') if isinstance(wo, pd.Series) else type(wo).__name__ + (' ' + str(wo.dtype) if isinstance(wo, np.ndarray) else '')))
+                if any(x <= 0 for x in case['w']):
+                    ctx.count('weights with a zero or negative entry')
             ctx.count('on=%s' % ('label' if isinstance(case['on'], str) else 'list%d' % len(case['on'])))
+            ctx.count('row labels: %s' % case.get('index_kind', 'range'))
+            ctx.count('call style: %s' % case.get('style', 'default'))
+            ctx.count('layout: %s' % case.get('layout'))
+            eo = edges_obj(case)
+            ctx.count('edges as %s' % (type(eo).__name__ + (' ' + str(eo.dtype) if isinstance(eo, np.ndarray) else '')))
+            ctx.count('base as %s' % case.get('base_kind'))
+            for c, d in (case.get('dtypes') or {}).items():
+                ctx.count('dtype %s:%s' % (c, d))
+            if case.get('kind'):
+                ctx.count('shape: %s' % case['kind'])
+            if any(len(r[3]) > 127 for r in case['rows']):
+                ctx.count('sequences longer than 127')
             if len(case['rows']) <= 7 and len(ctx.vm_cases) < 36:
-                rq = requests(case)
                 for j in (1, 2, 4, 8):
-                    ctx.add_vm(rq[j][0], rq[j][1], o[j])
+                    ctx.add_vm(rq[n][j][0], rq[n][j][1], o[j])
         if len(ctx.violations) > 6:
             return False
     return True
+
+
+def run_empty(ctx):
+    """the table without rows: no group has two members, so pc_conditional (and the entropy of it) is undefined = NaN; pc of no rows is 0/0"""
+    import pyrepseq.stats as st
+    import pyrepseq.entropy as en
+    case = dict(rows=[], by='g', on='s', features='s', w=None, wbad=None, edges=[0, 1, 2], norm=True, base=2.0)
+    cond, r_plain, r_cond = ctx.oracle.run([requests(case)[j] for j in (1, 9, 10)])
+    df = make_df([])
+    for by in ('g', ['g'], ['g', 'h']):
+        for on in ('s', ['s', 't']):
+            ctx.count('empty table')
+            r = call_impl(st.pc_conditional, df, by, on)
+            if not wire_ok(r, cond):
+                ctx.violation('property', 'pc_conditional(table without rows, by=%r, on=%r) = %s, model %s' % (by, on, r, cond), dict(case=dict(case, by=by, on=on), site='stats.pc_conditional[empty]'), site='stats.pc_conditional[empty]')
+            r = call_impl(en.renyi2_entropy, df, on, by=by)
+            if not entropy_ok(r, r_cond, 2.0):
+                ctx.violation('property', 'renyi2_entropy(table without rows, %r, by=%r) = %s, pc_conditional is %s' % (on, by, r, r_cond), dict(case=dict(case, by=by, features=on), site='entropy.renyi2_entropy[by,empty]'), site='entropy.renyi2_entropy[by,empty]')
+    ctx.case()
 
 
 def run(ctx):
     rng = ctx.rng
     ctx.rule = ('(a) every table with <= %d rows over group keys {b, a, c} and sequences {A, B}: pc_conditional, pc_grouped_cross, pcDelta_grouped(bins=0), '
                 'pcDelta_grouped_cross(bins=0, square); (b) random tables with 1-3 grouping columns (string / int / float keys, unsorted, 0-3 singleton groups, '
-                '0-5 larger groups), 1-3 feature columns, weights from {1,2,3,5,0.5,2.5} or uniform, bin edge vectors (list / array, integer / half-integer) '
-                'and bins=0, condensed and square forms, normalize on/off, bases {2, e, 10, None, 0.5, 3.7, default}: all six functions. '
+                '0-5 larger groups; also 9-26 groups, one group of 130-300 rows, singletons only, one group, no rows), 1-3 feature columns, weights from '
+                '{1,2,3,5,0.5,2.5} (also 0, negative, 100) or uniform in seven containers, bin edge vectors (list / tuple / range / int and float arrays, integer / '
+                'half-integer), default bins and bins=0, pseudocount / maxseqs / metric through **kwargs, condensed and square forms, normalize on/off, twelve bases as '
+                'Python and NumPy numbers, None and default; the table with default / shifted / permuted / string / float / repeated row labels, other column dtypes, '
+                'extra and reordered columns; calls spelled positionally, by keyword and mixed; grouping given as column labels or as values (array, Series, mapping, '
+                'function); sequence column(s) as a label or a list: all six functions. '
                 'non-trivial := at least two groups with two or more members, 0 < pc_conditional < 1 and some cross entry strictly between 0 and 1') % (4 if ctx.quick else 5)
     # dispatch facts regenerated from the source
     d = ctx.oracle.run([('api_c13_dispatch', [a, b]) for a in (True, False) for b in (True, False)])
     ctx.note('regenerated dispatch (renyi2, stdrenyi2, conditional/cross) for (by_falsy, is_list) in TT, TF, FT, FF: %s' % (d,))
     base_case = dict(by='g', on='s', features='s', w=None, wbad=None, edges=[0, 1, 2], norm=True, base=2.0)
-    small = [dict(base_case, rows=rows) for rows in small_tables(4 if ctx.quick else 5)]
+    # quick tier: the two-column spelling on every fourth of the small tables (all of them in the thorough tier)
+    small = [dict(base_case, rows=rows, paired=(not ctx.quick or i % 4 == 0)) for i, rows in enumerate(small_tables(4 if ctx.quick else 5))]
     if not run_cases(ctx, small, light=True, sample_every=400):
         return
     ctx.exhaustive = True
+    run_empty(ctx)
     cases = [gen_case(rng, ctx.quick) for _ in range(250 if ctx.quick else 4000)]
+    # every rarely used form at least a few times whatever the seed
+    for x in EXTRAS:
+        for _ in range(2 if ctx.quick else 10):
+            c = gen_case(rng, ctx.quick)
+            c['extras'] = [x]
+            cases.append(c)
     # a few larger tables
     for _ in range(5 if ctx.quick else 60):
         c = gen_case(rng, ctx.quick)
         extra = [list(rng.choice(c['rows'])) for _ in range(rng.randint(20, 80))]
         for r in extra:
             r[3] = rng.choice(SEQS)
-        c['rows'] = c['rows'] + extra
+        c['rows'] = [r if len(r[3]) <= 20 else r[:3] + ['CASSLGQ'] + r[4:] for r in c['rows'] + extra]
         rng.shuffle(c['rows'])
         c['w'] = None
         c['wbad'] = None
+        gen_options(rng, c)
         cases.append(c)
+    cases += special_cases(rng, ctx.quick)
     run_cases(ctx, cases)
     ctx.assumptions += ['pandas groupby / filter / apply group rows by key, keep row order inside a group and order groups by ascending key (modelled as a stable '
                         'insertion sort of the distinct keys; exercised on string, int and float keys)',
                         'scipy squareform(vector) and numpy fill_diagonal (modelled by square_of); numpy.histogram bin convention (model/PcDelta.v)',
-                        'cells of feature columns contain no "_" and str() is injective on them (domain of C02_rows_coincide_iff_all_columns)',
+                        'cells of feature columns contain no "_" (nor the separator handed to stdrenyi2_entropy, nor ".") and str() is injective on them (domain of C02_rows_coincide_iff_all_columns)',
                         'numpy log / sqrt are the real functions up to 1e-9 (entropies are compared through base**(-H) = pc and (S ln base)^2 = var / pc^2)']
 
 
@@ -456,6 +857,8 @@ def replay(ctx, obj):
     if not case:
         return run(ctx)
     case.setdefault('wbad', None)
+    if not case['rows']:
+        return run_empty(ctx)
     outs = ctx.oracle.run(requests(case))
     bad, names = evaluate(ctx, case, outs)
     ctx.case(nontrivial_key=repr(case['rows']))
